@@ -243,7 +243,19 @@ func c07Fallback(c *Ctx, sx *symx.Ctx, pf *ssa.Function) {
 	find := finds[0]
 	// O-3: data slice
 	data := find.Common().Args[1]
-	mk, isMk := data.(*ssa.MakeSlice)
+	// the targets may be made here or in a helper that returns them: the rest
+	// of the rule looks at the function that makes them
+	home, mk, via := sliceBuilder(c, data)
+	isMk := mk != nil
+	if home == nil {
+		home = pf
+	}
+	if via != nil {
+		// the helper works on the same database
+		if len(via.Common().Args) == 0 || ssau.ParamOf(via.Common().Args[0]) != pf.Params[0] && via.Common().Args[0] != ssa.Value(pf.Params[0]) {
+			isMk = false
+		}
+	}
 	lenOK := false
 	if isMk {
 		if lc, ok := mk.Len.(*ssa.Call); ok && ssau.CallName(lc) == "builtin.len" {
@@ -263,7 +275,7 @@ func c07Fallback(c *Ctx, sx *symx.Ctx, pf *ssa.Function) {
 	r.Check(patOK, "O-3", fk+"#pattern-is-query", c.P.Pos(find.Pos()), "the matcher's pattern is the query", "the pattern given to the matcher is not the query")
 	// stores into data[i]
 	var loopOverCmds *ssau.RangeLoop
-	for _, l := range ssau.RangeLoops(pf) {
+	for _, l := range ssau.RangeLoops(home) {
 		l := l
 		if l.Over != nil && !l.IsMap {
 			if _, ok := ssau.IsFieldLoad(l.Over, dbType, "Commands"); ok {
@@ -287,7 +299,7 @@ func c07Fallback(c *Ctx, sx *symx.Ctx, pf *ssa.Function) {
 				key := fmt.Sprintf("%s#target-store-%d", fk, nStores)
 				idxOK := loopOverCmds != nil && ia.Index == loopOverCmds.Index
 				// the text derives from the element of that iteration: some operand chain reaches db.Commands[idx] or its range copy
-				srcOK := idxOK && c07FromElement(pf, st.Val, loopOverCmds)
+				srcOK := idxOK && c07FromElement(home, st.Val, loopOverCmds)
 				r.Check(idxOK, "O-3", key+":index", c.P.Pos(st.Pos()), "targets[i] with i the range index over db.Commands", "a matcher target is stored at an index that is not the range index over db.Commands")
 				r.Check(srcOK, "O-3", key+":text", c.P.Pos(st.Pos()), "targets[i] is built from db.Commands[i]'s own text", "the text matched at index i is not built from db.Commands[i]")
 			}
